@@ -26,10 +26,15 @@ ClientProxyBuilder / Scales builder over the REAL MessageDispatcher, below it a 
 result and answers the scenario controls.  Scenarios (seeded): calls made before the open completed, after,
 and a mix (also between the open result being set and its continuations running); several calls outstanding
 at once, each with an argument of its own; answers in a scenario-chosen order, some of them errors, some
-calls left unanswered; blocking forms from greenlets of their own, _async forms from the driver greenlet; the
-loop advanced between operations by a scenario-chosen number of quanta.  Events: Client, Call, SinkRecv, Reply,
-Ret, Result, End (see specs/UriProxy.tla, specs/ProxyCalls.tla).  No timeouts are used (the call timeout is
-3600 s and the clock moves by seconds at most).
+calls left unanswered; DispatcherOpen() asked again ("wait until ready") before / between / after the early
+calls, after the open completed, twice; error answers of several classes (args, own __str__, raised and caught so
+they carry a traceback, built as sinks do: MethodReturnMessage(error=ex)) and string values with format-hostile
+texts ('%', '{}', backslashes, non-ASCII, very long, empty), falsy and large values; the loop advanced between
+operations by a scenario-chosen number of quanta.  Everything of the code under test that may legitimately yield
+or wait (Build(), DispatcherOpen(), both call forms, the delivery of an answer, Close()) runs in a greenlet of
+its own, the loop stepped one quantum at a time until it has returned (_outside); never from the driver greenlet.
+Events: Client, Reopen, Call, SinkRecv, Reply, Ret, Result, End (see specs/UriProxy.tla, specs/ProxyCalls.tla).
+No timeouts are used (the call timeout is 3600 s and the clock moves by seconds at most).
 
 Level: exploration (inputs are sampled; TLC validates every recorded pair against the
 reference functions and checks the reference functions' own laws exhaustively in bounds).
@@ -59,12 +64,16 @@ ASSUMPTIONS = [
   'end-to-end mode: every call of a scenario carries an argument of its own (a zero-argument method is called at '
   'most once per scenario), so the sink message of a call is identified by its content; the sink is directly below '
   'the dispatcher (builder path: below the timeout sink); open always succeeds; no call times out (timeouts are '
-  'C01); calls of methods that need not be proxied (leading underscore) are judged only when they reach the sink',
+  'C01); calls of methods that need not be proxied (leading underscore) are judged only when they reach the sink; '
+  'a repeated Open() of the recording sink returns the same result (as load balancers / transport sinks do), or, '
+  'variant, a fresh completed one once the sink is open (as the singleton pool does); an exception escaping from '
+  'the response processing into the deliverer of an answer is not judged by itself (the call it was for is)',
 ]
 RULE = {'C20': 'each trace = either 2-3 generated interfaces (every exposed attribute called with positional+keyword '
                'arguments, value and error outcomes, stub or real dispatcher, cached and fresh proxy class) + 8-12 URIs, '
                'or one end-to-end scenario (2-7 calls through a generated client over the real dispatcher over a '
-               'recording sink; calls before/after/around the completion of open, answers in scenario-chosen order); '
+               'recording sink; calls before/after/around the completion of open, DispatcherOpen() repeated, answers '
+               'in scenario-chosen order with format-hostile error texts / values); '
                'non-trivial = contains an interface with an inherited or underscore-decorated method, or a URI with '
                'more than one endpoint, or (end-to-end) at least two calls outstanding at once; distinct by canonical '
                'event list'}
@@ -962,7 +971,10 @@ def _run_e2e(loop, script, ev):
     args = [pool.objs[t] for t in a_tok]
     kwargs = dict((k, pool.objs[t]) for k, t in kw_tok.items())
     attr = base if op['form'] == 'sync' else base + '_async'
-    call_ev = {'e': 'Call', 'i': 1, 'cid': cid, 'n': cps(attr), 'in': {'args': a_tok, 'kw': _kwlist(pool, kwargs)}}
+    # tokens are taken from the objects on both sides (caller and sink) the same way: the pool grows (markers,
+    # answer objects) and an interned object such as () may sit in it more than once
+    call_ev = {'e': 'Call', 'i': 1, 'cid': cid, 'n': cps(attr),
+               'in': {'args': [pool.tok(x) for x in args], 'kw': _kwlist(pool, kwargs)}}
     if not st['opened']:
       st['early'] += 1
     if op['form'] == 'sync':
@@ -1159,7 +1171,21 @@ def extra_coverage(prop, tier, traces):
           'e2e_calls_before_open': sum(t.get('meta', {}).get('early', 0) for t in e2e),
           'e2e_scenarios_with_2plus_early_calls': sum(1 for t in e2e if t.get('meta', {}).get('early', 0) >= 2),
           'e2e_error_answers': sum(1 for t in e2e for e in t['ev'] if e['e'] == 'Reply' and e['kind'] == 'raise'),
-          'e2e_answers_out_of_call_order': sum(1 for t in e2e if _out_of_order(t['ev']))}
+          'e2e_answers_out_of_call_order': sum(1 for t in e2e if _out_of_order(t['ev'])),
+          'e2e_repeated_DispatcherOpen': sum(t.get('meta', {}).get('reopens', 0) for t in e2e),
+          'e2e_scenarios_reopen_with_early_call_queued': sum(1 for t in e2e if _reopen_after_early(t['ev']))}
+
+
+def _reopen_after_early(ev):
+  seen_call = False
+  for e in ev:
+    if e['e'] == 'Call':
+      seen_call = True
+    elif e['e'] == 'SinkRecv':
+      return False
+    elif e['e'] == 'Reopen' and seen_call:
+      return True
+  return False
 
 
 def _out_of_order(ev):
